@@ -794,6 +794,11 @@ class FnEmitter:
                     self.fire('R8', 'mut parameter %s rebound by `let mut`' % name)
             if ret is not None:
                 head += ' -> (%s: %s)' % (spec.result, ret)
+            elif is_async:
+                # R9: Verus drops the postcondition of an `async fn` without a declared return type at
+                # call sites (probed); the unit return type is made explicit.
+                head += ' -> (%s: ())' % spec.result
+                self.fire('R9', 'explicit unit return type on async fn')
             head += where_txt
             body_a, body_b = item.body_open, item.body_close
             self.ret_type = ret
